@@ -47,6 +47,7 @@ def gen_dims(rng, K, extK):
 def gen_plan(rng, tier, idx, opts):
     ext = rng.random() < 0.5
     K = rng.randint(1, 4)
+    K0 = K
     extK = rng.randint(1, 2) if ext else 0
     ops = []
     Nr, Nt, NtE = gen_dims(rng, K, extK)
@@ -70,6 +71,24 @@ def gen_plan(rng, tier, idx, opts):
     n = rng.randint(3, 25)
     for _ in range(n):
         r = rng.random()
+        if r < 0.04:
+            # the number of users changes: the statement needs a path loss that is still meaningful, so the
+            # re-dimensioning is immediately followed by a new path loss (or None) and a new post filter (or None)
+            K = rng.randint(1, 4)
+            Nr, Nt, NtE = gen_dims(rng, K, extK)
+            o = dim_op()
+            o["K"] = K
+            ops.append(o)
+            if rng.random() < 0.3:
+                ops.append({"op": "set_pathloss", "pl": None})
+            else:
+                o2 = {"op": "set_pathloss", "pl": {"shape": [K, K], "np_seed": s(), "scale": 1.0}}
+                if ext:
+                    o2["ext"] = {"shape": [K, extK], "np_seed": s(), "scale": 1.0}
+                ops.append(o2)
+            ops.append({"op": "post_filter", "seed": s() if rng.random() < 0.5 else None})
+            has_filter = ops[-1]["seed"] is not None
+            continue
         if r < 0.12:
             old = list(Nr)
             ops.append(dim_op())
@@ -102,7 +121,7 @@ def gen_plan(rng, tier, idx, opts):
             ops.append({"op": "corrupt", "seed": s(), "ncols": rng.randint(1, 4), "noise_seed": s(), "concat": rng.random() < 0.4})
     ops.append({"op": "read", "what": "big_H"})
     ops.append({"op": "read", "what": "H"})
-    return {"world": "muchannel", "cls": "extint" if ext else "plain", "K": K, "extK": extK, "ops": ops}
+    return {"world": "muchannel", "cls": "extint" if ext else "plain", "K": K0, "extK": extK, "ops": ops}
 
 
 # --------------------------------------------------------------------------
@@ -116,6 +135,7 @@ class Model:
         self.noise_var = None
         self.W = None
         self.W_valid = True
+        self.pl_valid = True
 
     def big(self):
         if self.pl is None:
@@ -222,6 +242,10 @@ def execute(plan):
                 if kind in ("randomize", "init"):
                     Nr, Nt, NtE = np.array(op["Nr"]), np.array(op["Nt"]), np.array(op["NtE"], dtype=int)
                     old_Nr = None if m.Nr is None else list(m.Nr)
+                    if op.get("K") is not None and op["K"] != K:
+                        K = op["K"]
+                        m.pl_valid = False          # until the next set_pathloss
+                        bump(res["probes"], "number_of_users_changed")
                     if kind == "randomize":
                         ch.set_channel_seed(op["seed"])
                         if ext:
@@ -265,6 +289,7 @@ def execute(plan):
                         else:
                             ch.set_pathloss(pl.copy())
                             m.pl = pl
+                    m.pl_valid = True
                     res["state_keys"].append("%s|set_pathloss(%s)|cache=%s|reads=%s" % (plan["cls"], "None" if op["pl"] is None else "M", cache, "".join(sorted(set(reads_since)))[:6]))
                     mutations += 1
                     last_mut = "set_pathloss"
@@ -293,12 +318,12 @@ def execute(plan):
                     m.W_valid = True
                     res["state_keys"].append("%s|post_filter|cache=%s" % (plan["cls"], cache))
                 elif kind == "read":
-                    if m.raw is None:
+                    if m.raw is None or not m.pl_valid:
                         continue
                     check_views(step, op["what"])
                     reads_since.append(op["what"][0] + op["what"][-1])
                 elif kind == "corrupt":
-                    if m.raw is None or not m.W_valid:
+                    if m.raw is None or not m.W_valid or not m.pl_valid:
                         continue
                     rs = np.random.RandomState(op["seed"])
                     nc = op["ncols"]
@@ -370,7 +395,7 @@ def execute(plan):
             break
         log.add(kind, {k: v for k, v in op.items() if k != "op"})
         # after every MUTATION the two primary views are re-derived (reads populate caches, which is the point)
-        if kind in ("randomize", "init", "set_pathloss") and res["status"] == "ok" and op.get("check_all", True):
+        if kind in ("randomize", "init", "set_pathloss") and res["status"] == "ok" and m.pl_valid:
             try:
                 check_views(step, "all" if (step % 3 == 0) else "none")
             except Exception as e:
